@@ -149,7 +149,8 @@ class Report:
         for n in self.notes:
             out.append(f'NOTE: {n}')
         nviol = nknown = 0
-        os.makedirs(os.path.join(VERIF, 'replay'), exist_ok=True)
+        rdir = os.environ.get('VERIF_REPLAY_DIR') or os.path.join(VERIF, 'replay')
+        os.makedirs(rdir, exist_ok=True)
         for (rule, construct), g in sorted(groups.items()):
             for kid, (ent, fs) in g['known'].items():
                 nknown += 1
@@ -159,7 +160,7 @@ class Report:
             if not fs:
                 continue
             nviol += 1
-            path = os.path.join(VERIF, 'replay', f'{self.pid}-{slug(rule + "_" + construct)}.json')
+            path = os.path.join(rdir, f'{self.pid}-{slug(rule + "_" + construct)}.json')
             with open(path, 'w') as fh:
                 json.dump({
                     'property': self.pid, 'rule': rule, 'construct': construct,
@@ -223,7 +224,7 @@ class Report:
             'wall_s': round(time.time() - self.t0, 3),
             'violations': nviol,
         }
-        d = os.path.join(VERIF, 'evidence')
+        d = os.environ.get('VERIF_EVIDENCE_DIR') or os.path.join(VERIF, 'evidence')
         os.makedirs(d, exist_ok=True)
         with open(os.path.join(d, f'{self.pid}.json'), 'w') as f:
             json.dump(ev, f, indent=1, default=str)
